@@ -562,8 +562,8 @@ func innerSeqs(n int) []string {
 var shareCorpus = [][4]string{
 	// api, conn, flags, pre, ev  (pre folded into the 4th field as pre|ev)
 	{"share", "publish", "ECZ", "-|S,S,N1,N2,U0,N3,U1,S,N4"},
-	{"share", "publish", "ECZ", "N1,N2,C|S,S"},                  // Share over Just(1,2): nil dereference
-	{"config", "publish", "ECZ", "C;-|S,S,U1,N1"},               // refCount leak after the nil dereference
+	{"share", "publish", "ECZ", "N1,N2,C|S,S"},                  // Share over Just(1,2): was the nil dereference (fix a510ca9)
+	{"config", "publish", "ECZ", "C;-|S,S,U1,N1"},               // was the refCount leak after the nil dereference
 	{"sharereplay2", "replay2", "E", "-|S,N1,N2,N3,S,C,S"},      // ShareReplay(2)
 	{"sharereplayZ1", "replay1", "EZ", "-|S,N1,U0,S,N2"},        // ShareReplayWithConfig
 	{"config", "behavior", "Z", "-|S,N1,S,E2,S"},
@@ -577,15 +577,9 @@ func genShare(tier string, seed int64, only string) []*Case {
 	r := rand.New(rand.NewSource(seed))
 	var cases []*Case
 	id := 0
-	// -only fix: the tree under check has repo_fixes/C11-share-local-sourceSubscription.patch applied
-	// (decided by the check from the source text); the model then takes its `fixed` branch
-	fix := "0"
-	if only == "fix" {
-		fix = "1"
-	}
 	add := func(api, conn, flags, pre, ev string) {
 		id++
-		cases = append(cases, newCase(id, "kind", "share", "api", api, "conn", conn, "flags", flags, "pre", pre, "ev", ev, "fix", fix))
+		cases = append(cases, newCase(id, "kind", "share", "api", api, "conn", conn, "flags", flags, "pre", pre, "ev", ev))
 	}
 	for _, c := range shareCorpus {
 		pe := strings.SplitN(c[3], "|", 2)
@@ -596,7 +590,7 @@ func genShare(tier string, seed int64, only string) []*Case {
 		for _, fl := range shareFlagSets {
 			for _, conn := range []string{"publish", "replay1", "behavior"} {
 				id++
-				cases = append(cases, newCase(id, "kind", "share", "api", "config", "conn", conn, "flags", fl, "src", j, "ev", "S,S,U0,S", "fix", fix))
+				cases = append(cases, newCase(id, "kind", "share", "api", "config", "conn", conn, "flags", fl, "src", j, "ev", "S,S,U0,S"))
 			}
 		}
 	}
